@@ -299,6 +299,13 @@ def run_case(kind, p):
         # definition log(x - min + 1) does not depend on it
         frame = (frame + np.float32(p["pedestal"])).astype(np.float32)
     peaks = np.asarray(p["peaks"], dtype=np.int64)
+    peaks_arg = peaks
+    if p.get("peaks_dtype"):
+        # the peak list in an unsigned / narrow integer container (positions above / left of the frame are moved onto its first
+        # row / column: windows still stick out at the top and on the left)
+        info_ = np.iinfo(p["peaks_dtype"])
+        peaks = np.clip(peaks, max(0, int(info_.min)), int(info_.max))
+        peaks_arg = peaks.astype(p["peaks_dtype"])
     msgs = []
     for pipeline in p["pipelines"]:
         try:
@@ -316,7 +323,7 @@ def run_case(kind, p):
                 # output arrays that still hold the results of an earlier frame (the documented way of using them in a loop):
                 # every entry is written
                 kw_["outs"] = impl.alloc_out(len(peaks), prefill=float(p["prefill"]))
-            outs = runner(frame, pattern, peaks, b=p["b"], **kw_)
+            outs = runner(frame, pattern, peaks_arg, b=p["b"], **kw_)
         except Exception as e:
             msgs.append(f"{pipeline}: raised {type(e).__name__}: {e}")
             continue
@@ -337,7 +344,8 @@ def gen_case(rng, k):
     peaks = np.stack([rng.integers(-2 * c, shape[0] + 2 * c, n), rng.integers(-2 * c, shape[1] + 2 * c, n)], axis=1)
     peaks[0] = (int(rng.integers(c, shape[0] - c + 1)), int(rng.integers(c, shape[1] - c + 1)))
     return {"seed": int(rng.integers(1 << 30)), "pattern": pat, "shape": shape,
-            "frame_kind": ("poisson", "gauss", "disks", "hot")[k % 4], "prefill": [None, 1234.5, -77.25][(k // 4) % 3], "peaks": peaks.tolist(),
+            "frame_kind": ("poisson", "gauss", "disks", "hot")[k % 4], "prefill": [None, 1234.5, -77.25][(k // 4) % 3],
+            "peaks_dtype": [None, "uint16", None, "uint32", None, "uint8", None, "uint64"][(k // 3) % 8], "peaks": peaks.tolist(),
             "b": int(rng.integers(1, n + 2)), "pipelines": ["fast", "full"],
             "buf_layout": [None, "window", None, "transposed"][(k // 3) % 4], "negate": (k // 2) % 3 == 1 or k % 10 == 7,
             "pedestal": (0.0, 0.0, 2.0 ** 24 + 2, 0.0, -3e9, 2.0 ** 25, 1e6, float(2 ** int(rng.integers(24, 31))))[(k // 4) % 8]
